@@ -134,6 +134,7 @@ def main(argv=None):
     ap.add_argument("--only", default=None, help="run only this scenario (debugging; evidence not written)")
     a = ap.parse_args(argv)
     prop, tier = a.prop, a.tier
+    os.environ["VERIF_TIER_EFFECTIVE"] = tier
     seed = int(os.environ.get("VERIF_SEED", "0") or 0)
     t0 = time.time()
     modname = "contracts.%s" % prop
